@@ -10,6 +10,7 @@ import (
 	"go/token"
 	"go/types"
 	"regexp"
+	"sort"
 	"strings"
 
 	"golang.org/x/tools/go/packages"
@@ -93,6 +94,13 @@ func normalizedNode(c *Ctx, p *packages.Package, root ast.Node, subst map[string
 					repls = append(repls, repl{x.Pos(), x.End(), s})
 				}
 			}
+		case *ast.IfStmt:
+			// `else { if c {…} }` is `else if c {…}`: drop the braces of an else block holding one if statement
+			if blk, ok := x.Else.(*ast.BlockStmt); ok && len(blk.List) == 1 {
+				if _, isIf := blk.List[0].(*ast.IfStmt); isIf {
+					repls = append(repls, repl{blk.Lbrace, blk.Lbrace + 1, ""}, repl{blk.Rbrace, blk.Rbrace + 1, ""})
+				}
+			}
 		case *ast.CallExpr:
 			// error texts are not part of any property: fmt.Errorf("…", args) -> fmt.Errorf()
 			if sel, ok := x.Fun.(*ast.SelectorExpr); ok {
@@ -116,7 +124,8 @@ func normalizedNode(c *Ctx, p *packages.Package, root ast.Node, subst map[string
 	start, end := file.Offset(root.Pos()), file.Offset(root.End())
 	var out strings.Builder
 	cur := start
-	// replacements are in source order because ast.Inspect is pre-order; skip nested
+	// replacements in source order; skip nested
+	sort.SliceStable(repls, func(i, j int) bool { return repls[i].pos < repls[j].pos })
 	for _, rp := range repls {
 		o1, o2 := file.Offset(rp.pos), file.Offset(rp.end)
 		if o1 < cur {
